@@ -127,6 +127,9 @@ X_EXPRS = [
     "f·!(·[·1·,·2·]·,·g·(·x , y·)·)",
     "f·!(·'a" + SP + SP + "b'·)",
     "f·!(·)",
+    # multi-line tokens as raw macro material, followed by blanks and another word on their last line
+    "f·!(·a" + SP + "'''x" + NL + SP + "y'''" + SP + SP + SP + "b·)",
+    "f·!(·a" + SP + "'a\\" + NL + "b'" + SP + SP + SP + "c ,·d·)",
     "a·?",
     "a·.·b·??",
 ]
@@ -260,6 +263,8 @@ X_STMTS = [
     "echo·!" + SP + "raw" + SP + SP + SP + "text",
     "echo·! a" + SP + SP + "==·b -·c",
     "echo·!",
+    "echo·! a" + SP + "'''x" + NL + SP + "y'''" + SP + SP + SP + "b c",
+    "echo·! a" + SP + "\"a\\" + NL + "b\"" + SP + SP + SP + "c",
     "bash -·c·! echo" + SP + SP + "$X",
     "with·! ctx·:\n>a" + SP + SP + "b\n>c·=·1",
     "with·! ctx·:\n>ls -·l\n>if a·:\n>>b",
@@ -327,7 +332,15 @@ def _fill_stmt(ctx, stmt):
 
 
 # which context indices make up the quick tier (the thorough tier uses all of them)
-QUICK_CTX = {"py": (0, 5), "str": (0, 1, 5), "x": (0, 1, 3), "stmt": (0, 3), "block": (0, 2), "xstmt": (0, 2)}
+QUICK_CTX = {"py": (0, 5), "str": (0, 1, 5), "x": (0, 1, 3), "stmt": (0, 3), "block": (0, 2), "xstmt": (0, 2), "kw2": (0,)}
+
+# command lines whose SECOND word is a Python keyword (hard and soft) and that carry a `k=v` word:
+# `zpool import -o k=v`, `x for k=v`, `cmd with k=v` ...  xonsh parses them as commands; a
+# formatter that takes the keyword for Python syntax applies the `=` rule and changes argv.
+import keyword as _keyword
+
+KW2_WORDS = list(_keyword.kwlist) + list(_keyword.softkwlist)
+KW2_FORM = "zpool {KW} -·o k·=·v"
 
 
 def forms():
@@ -336,10 +349,10 @@ def forms():
     out = []
     seen = set()
 
-    def add(fam, ci, text):
+    def add(fam, ci, text, core=None):
         if text not in seen:
             seen.add(text)
-            out.append((fam, ci == 0, ci in QUICK_CTX[fam], text))
+            out.append((fam, ci == 0 if core is None else core, ci in QUICK_CTX[fam], text))
 
     for fam, exprs, ctxs in (("py", PY_EXPRS, EXPR_CTX), ("str", STR_EXPRS, EXPR_CTX), ("x", X_EXPRS, XEXPR_CTX)):
         for e in exprs:
@@ -351,6 +364,10 @@ def forms():
                 if s == "return" and ci < 3:
                     continue
                 add(fam, ci, _fill_stmt(c, s))
+    # never 'core' (no prelude / prefix / pair enumeration): short one-line forms, k=1 only
+    for kw in KW2_WORDS:
+        for ci, c in enumerate(STMT_CTX):
+            add("kw2", ci, _fill_stmt(c, KW2_FORM.replace("{KW}", kw)), core=False)
     # expression statements nested at depth 2 (subprocess detection inside blocks)
     for e in X_EXPRS + STR_EXPRS[:6]:
         add("x", 9, _fill_stmt(STMT_CTX[3], e))
